@@ -245,6 +245,9 @@ func (g *genCfg) pick(rng *rand.Rand, o, d *Obj) (Call, string) {
 			for i := 0; i < n; i++ {
 				xs = append(xs, g.val(rng, true))
 			}
+			if o.S.IsInit() && rng.Intn(4) == 0 { // a CONDITION row into an initialised receiver
+				return Call{"op": "Marshal", "kind": "CONDITION", "xs": []any{"k", "v"}}, "st"
+			}
 			return Call{"op": "Marshal", "kind": allKinds[rng.Intn(5)], "xs": xs}, "st"
 		case "SetAuxiliary":
 			return Call{"op": "SetAuxiliary", "form": []string{"none", "nil", "map", "map0"}[rng.Intn(4)]}, "st"
